@@ -198,7 +198,7 @@ class NestedState(State):
         self.initial = initial
         self.events = {}
         self.states = OrderedDict()
-        self.on_final = listify(on_final)
+        self.on_final = list(listify(on_final))  # own list, like on_enter / on_exit
         self._scope = []
 
     def add_substate(self, state):
